@@ -19,7 +19,8 @@
   and the oracle-side exchange is `joint_exchange`; missing are (2') the closed form of `unroll` for factors
   filed under different ordinals (`instProd_bucket` assumes one ordinal `L` for all factors: the slice of a
   variable of smaller ordinal must be read at the restricted context) and (3) the stability of the recomputed
-  ordinals across iterations (semantically `Run.Inv.ord`).
+  ordinals across iterations (semantically `Run.Inv.ord`).  Props/C09/TwoLevel.lean has the instance-level closed form
+  for arbitrary ordinals (`instProd_general`) and the key stability of the filed factor (`filed_factor_key`).
 -/
 import FunsorVerif.Props.C09.Plated
 namespace FV.Props.C09.Exec
